@@ -19,7 +19,7 @@
    atoms ordered like Python tuples (ints numerically, str by code point).
    NOT modelled: logging; TypeError of equal_nested_dict_or_set on a part of the wrong class
    (excluded by the typed setters of kapture.Kapture); NaN (reflexivity fails for NaN in the code). *)
-From Coq Require Import List Bool String ZArith QArith Qabs.
+From Coq Require Import List Bool String ZArith QArith Qabs Qreduction.
 From KV Require Import Eqb AL Str.
 Import ListNotations.
 Local Open Scope string_scope.
@@ -237,15 +237,19 @@ Definition isclose_sym (a b : Q) : bool := np_isclose a b && np_isclose b a.
    chord:  min(|qa-qb|, |qa+qb|) <= thr/2  (exact up to a relative 1e-12 at thr = 1e-5; the
    correspondence generator stays a factor 2 away from the threshold). *)
 Definition pose_thr : Q := 1 # 100000.
-Definition sq (x : Q) : Q := x * x.
+(* Qred keeps the numbers small; it does not change the value (Qred q == q) *)
+Definition sq (x : Q) : Q := Qred (x * x).
+Definition rsub (a b : Q) : Q := Qred (a - b).
+Definition radd (a b : Q) : Q := Qred (a + b).
 Definition dist2_3 (a b : Q * Q * Q) : Q :=
-  let '(x, y, z) := a in let '(x', y', z') := b in sq (x - x') + sq (y - y') + sq (z - z').
+  let '(x, y, z) := a in let '(x', y', z') := b in
+  radd (radd (sq (rsub x x')) (sq (rsub y y'))) (sq (rsub z z')).
 Definition dist2_4 (a b : Q * Q * Q * Q) : Q :=
   let '(w, x, y, z) := a in let '(w', x', y', z') := b in
-  sq (w - w') + sq (x - x') + sq (y - y') + sq (z - z').
+  radd (radd (radd (sq (rsub w w')) (sq (rsub x x'))) (sq (rsub y y'))) (sq (rsub z z')).
 Definition sum2_4 (a b : Q * Q * Q * Q) : Q :=
   let '(w, x, y, z) := a in let '(w', x', y', z') := b in
-  sq (w + w') + sq (x + x') + sq (y + y') + sq (z + z').
+  radd (radd (radd (sq (radd w w')) (sq (radd x x'))) (sq (radd y y'))) (sq (radd z z')).
 Definition trans_close (a b : Q * Q * Q) : bool := Qle_bool (dist2_3 a b) (sq pose_thr).
 Definition rot_close (a b : Q * Q * Q * Q) : bool :=
   Qle_bool (dist2_4 a b) (sq (pose_thr / 2)) || Qle_bool (sum2_4 a b) (sq (pose_thr / 2)).
